@@ -11,8 +11,9 @@ Model of gortsplib's media path from a stream writer to the readers' callbacks (
       capacity `Server.WriteQueueSize`); a refused push is `ErrServerWriteQueueFull`, handed to
       `ServerHandlerOnStreamWriteError`
     → the session's single consumer goroutine pops in order and writes
-        TCP-based transports: one interleaved frame, channel = the media's channel (2·k for the k-th
-          SETUP of the session; 2·k+1 is its RTCP channel) on a reliable FIFO byte pipe;
+        TCP-based transports: one interleaved frame, channel = the media's channel (the pair the SETUP
+          response announced: the requested `interleaved=a-(a+1)` if free, else 400; without a request the
+          first free even pair; `a+1` is the RTCP channel) on a reliable FIFO byte pipe;
           the client reader demultiplexes channel → media (client_reader.go), payload type → format
           (client_media.go readPacketRTP), the reliable-mode receiver passes every packet through
         UDP: one datagram to the media's client port; the network may lose, duplicate and reorder;
@@ -107,6 +108,7 @@ structure Reader where
   udp     : Bool := false
   status  : Status := .setup
   meds    : List Nat := []                           -- medias set up, in SETUP order
+  chs     : List Nat := []                           -- … and the interleaved channel of each (same length)
   queue   : List Frame := []                         -- ring contents, oldest first
   wire    : List Frame := []                         -- TCP: frames in the pipe; UDP: every datagram sent
   rx      : List ((Nat × Nat) × Recv.State) := []    -- UDP: receiver per (media, format)
@@ -119,11 +121,20 @@ structure Reader where
   disc    : List Deliv := []                         -- ghost: discarded by the reader's own PAUSE / close
 deriving Repr, Inhabited
 
-/-- the interleaved channel of a media that was set up: 2 · (position among the session's SETUPs) -/
-def chanOf (x : Reader) (m : Nat) : Nat := 2 * x.meds.idxOf m
+/-- the interleaved channel of a media that was set up: the one its SETUP response announced -/
+def chanOf (x : Reader) (m : Nat) : Nat := x.chs.getD (x.meds.idxOf m) 0
 
-/-- client side, `tcpCallbackByChannel[ch]` (even channels carry RTP) -/
-def mediaOfChan (x : Reader) (c : Nat) : Option Nat := if c % 2 = 0 then x.meds[c / 2]? else none
+/-- `tcpCallbackByChannel[ch]`: the media whose RTP channel is `c` (`c + 1` is its RTCP channel) -/
+def mediaOfChan (x : Reader) (c : Nat) : Option Nat :=
+  if x.chs.contains c then x.meds[x.chs.idxOf c]? else none
+
+/-- `ServerSession.isChannelPairInUse` -/
+def pairInUse (x : Reader) (c : Nat) : Bool := x.chs.any fun t => t + 1 == c || t == c || t == c + 1
+
+/-- `ServerSession.findFreeChannelPair`: the first even channel whose pair is free (each pair in use
+blocks at most two even candidates, so the search among `2·n + 1` candidates finds one) -/
+def freePair (x : Reader) : Nat :=
+  (((List.range (2 * x.chs.length + 1)).map (2 * ·)).find? (fun c => !pairInUse x c)).getD 0
 
 /-- client side: channel → media, payload type → format -/
 def demux (cfg : Cfg) (x : Reader) (f : Frame) : Option (Nat × Nat) :=
@@ -155,7 +166,7 @@ def rwrite (cfg : Cfg) (x : Reader) (m : Nat) (p : Pkt) : Reader :=
                             queue := x.queue ++ [⟨chanOf x m, d.pkt, m, x.nw⟩] }
 
 inductive Ctl where
-  | setup (m : Nat)
+  | setup (m : Nat) (req : Option Nat)   -- SETUP of media `m`; `req`: first id of an explicit `interleaved=` pair
   | play
   | pclose
   | pnil
@@ -183,8 +194,11 @@ def rarrive (cfg : Cfg) (x : Reader) (f : Frame) : Reader :=
     { x with arrived := arrived, rx := rxSet x (m, pt) st, cbs := x.cbs ++ outs }
 
 def rctl (cfg : Cfg) (x : Reader) : Ctl → Reader
-  | .setup m =>
-    if x.status == .setup && m < cfg.medias.length && !x.meds.contains m then { x with meds := x.meds ++ [m] } else x
+  | .setup m req =>
+    -- an explicit pair that overlaps a pair in use is answered 400; without one the server picks a free pair
+    let c := req.getD (freePair x)
+    if x.status == .setup && m < cfg.medias.length && !x.meds.contains m && !pairInUse x c then
+      { x with meds := x.meds ++ [m], chs := x.chs ++ [c] } else x
   | .play =>
     if x.status == .setup && !x.meds.isEmpty then { x with status := .playing, queue := [] } else x
   | .pclose =>
